@@ -1,0 +1,38 @@
+//go:build verif
+
+// Contracts for require / preload (C20). Comment-only; read by /verif/engine. See contracts_verif.go.
+// The ghost call log of loRequire records its direct calls to getFieldString (reads of _LOADED / _LOADERS),
+// setFieldString (stores into _LOADED) and Call (loaders), in order.
+
+package lua
+
+//@ constglobal loopdetection
+
+//@ define ReqOK(L *LState) bool = Inv_gfn(L) && IdxOK(L) && L.G.Registry != nil && isStr(arg(L, 1)) && loopdetection != nil && (forall k int :: base(L) <= k && k < top(L) ==> valOK(L.reg.array[k]))
+// what the loader loop needs about the loaders table (an instance of the table invariant) and the host activation
+//@ define LoadersOK(L *LState, t *LTable) bool = t != nil && offset(t.array) == 0 && (arrid(t.array) == 0 || (arrid(t.array) != arrid(t.keys) && arrid(t.array) != arrid(L.reg.array))) && (forall i int :: 0 <= i && i < len(t.array) ==> valOK(t.array[i]))
+//@ define HostOK(L *LState) bool = Inv_gfn(L) && isStr(arg(L, 1)) && loopdetection != nil && (forall k int :: base(L) <= k && k < top(L) ==> valOK(L.reg.array[k]))
+//@ define gfs() int = fnid("(*LState).getFieldString")
+//@ define sfs() int = fnid("(*LState).setFieldString")
+//@ define callid() int = fnid("(*LState).Call")
+
+//@ extern strings.Join
+//@ noraise
+//@ modifies nothing
+
+//@ func loRequire [C20]
+//@ requires ReqOK(L)
+// (1) the first two actions read registry._LOADED and then _LOADED[name]
+//@ ensures  "reads-cache-first": ncalls() >= old(ncalls()) + 2 && callfn(old(ncalls())) == gfs() && callargLV(old(ncalls()), 1) == old(mkTab(L.G.Registry)) && callargStr(old(ncalls()), 2) == "_LOADED" && callfn(old(ncalls()) + 1) == gfs() && callargLV(old(ncalls()) + 1, 1) == callresLV(old(ncalls()), 0) && callargStr(old(ncalls()) + 1, 2) == old(str(arg(L, 1)))
+// (2) a cached module (a true value other than the loop sentinel): nothing else happens - no loader runs, nothing is stored - and the cached value is the result
+//@ ensures  "cached": truthy(callresLV(old(ncalls()) + 1, 0)) ==> ncalls() == old(ncalls()) + 2 && result == 1 && top(L) == old(top(L)) + 1 && pushed(L, 0) == callresLV(old(ncalls()) + 1, 0) && callresLV(old(ncalls()) + 1, 0) != mkUd(loopdetection)
+// (3) otherwise the LAST store or read of _LOADED[name] determines the result: the value returned is the value stored / found there
+//@ ensures  "result-is-loaded-entry": result == 1 && top(L) == old(top(L)) + 1 && (callfn(ncalls() - 1) == sfs() ==> pushed(L, 0) == callargLV(ncalls() - 1, 3) && callargLV(ncalls() - 1, 1) == callresLV(old(ncalls()), 0) && callargStr(ncalls() - 1, 2) == old(str(arg(L, 1)))) && (callfn(ncalls() - 1) == gfs() ==> pushed(L, 0) == callresLV(ncalls() - 1, 0))
+// (4) when the loader's result is stored, it is the loader's own first result if that is not nil, else true
+//@ ensures  "stores-loader-result": !truthy(callresLV(old(ncalls()) + 1, 0)) && callfn(ncalls() - 1) == sfs() ==> callfn(ncalls() - 3) == callid() && callfn(ncalls() - 2) == gfs() && callresLV(ncalls() - 2, 0) == mkUd(loopdetection) && callargLV(ncalls() - 1, 3) == ite(callresLV(ncalls() - 3, 10) != LNil, callresLV(ncalls() - 3, 10), LTrue)
+// (5) the loop sentinel is stored under the module name immediately before the chosen loader is called with the name
+//@ assert@"L.Push(modasfunc)" callfn(ncalls() - 1) == sfs() && callargLV(ncalls() - 1, 1) == loaded && callargStr(ncalls() - 1, 2) == name && callargLV(ncalls() - 1, 3) == mkUd(loopdetection)
+//@ assert@"modv := L.GetField(loaded, name)" callfn(ncalls() - 1) == callid() && callargLV(ncalls() - 1, 10) == modasfunc && callargLV(ncalls() - 1, 11) == mkStr(name) && callargInt(ncalls() - 1, 1) == 1
+//@ modifies everything
+//@ loop 1 invariant HostOK(L) && LoadersOK(L, loaders) && i >= 1 && top(L) == old(top(L)) && base(L) == old(base(L)) && name == old(str(arg(L, 1))) && loaders != nil && offset(messages) == 0
+//@ loop 1 invariant ncalls() >= old(ncalls()) + 3 && callfn(old(ncalls())) == gfs() && callargLV(old(ncalls()), 1) == old(mkTab(L.G.Registry)) && callargStr(old(ncalls()), 2) == "_LOADED" && callfn(old(ncalls()) + 1) == gfs() && callargLV(old(ncalls()) + 1, 1) == callresLV(old(ncalls()), 0) && callargStr(old(ncalls()) + 1, 2) == name && !truthy(callresLV(old(ncalls()) + 1, 0)) && loaded == callresLV(old(ncalls()), 0)
